@@ -10,6 +10,7 @@ CONSTANTS
   Windows <- MC_Windows
   DWindows <- MC_DWindows
   RsdCfgs <- MC_RsdCfgs
+  NearCfgs <- MC_NearCfgs
   GridIds <- MC_GridIds
   Methods <- MC_Methods
   QueryTimes <- MC_Query
@@ -25,6 +26,7 @@ PROPERTY ZeroDelayIsIdentity
 PROPERTY ResampleSameTimesIsIdentity
 PROPERTY InterpolationBounded
 PROPERTY GroupedIsColumnwise
+PROPERTY NearDelaysStayApart
 PROPERTY WindowExact
 PROPERTY WindowErrorIffEmpty
 CHECK_DEADLOCK FALSE
